@@ -19,7 +19,7 @@ CHECKS['C03'] = dict(
     note='USER_TYPE with a non-blob inner type is outside the proved domain (predicate userOK; counterexample theorem; known finding), wowp 32-bit array counts are a known finding; correspondence is sampled; lxml/struct/socket are external.',
     design='§5 C03')
 CHECKS['C16'] = dict(
-    technique='Lean 4 theorems write_total / write_sound / read_write / method_write_read about the writer model + differential correspondence of write_to_stream/create_from_stream',
+    technique='Lean 4 theorems write_total / write_sound / read_write / method_write_read / writeDict_order_irrelevant about the writer model + differential correspondence of write_to_stream/create_from_stream',
     text='C16.read_write: every well-typed value of every writable type is written as exactly its wire encoding and reads back to itself consuming exactly what was written; C16.write_sound: whenever the writer succeeds the bytes are the encoding of a well-typed value (unrepresentable values are refused); method argument lists incl. arity check. The writer model is tied to the real writers by running both on generated representable and deliberately unrepresentable values and comparing bytes / refusal.',
     note='value domain = the Python types the readers produce; float32 NaN payload quieting by the CPU is excluded; bytes payloads of STRING that are valid UTF-8 read back as str (known finding, counterexample theorem); correspondence is sampled.',
     design='§5 C16')
@@ -40,7 +40,7 @@ CHECKS['C06'] = dict(
     note='the encoder (packBits / encodeNested) is part of the model and its bytes are compared with the encoder of the harness on every generated operation inside its domain; a stop bit of 1 on an empty container is outside the encoder (covered by walk_reach and the tie); subscriber notification is proved in C07.dispatch_nested; the payload-length fix (32-bit) is part of the modelled code.',
     design='§5 C06')
 CHECKS['C08'] = dict(
-    technique='Lean 4 theorems position_spec / player_position_{set,copy,unknown_ignored,zero} / pose_frame / entity_history (updates and positions over whole histories) + differential play of generated position histories + recordings',
+    technique='Lean 4 theorems position_spec / player_position_{set,copy,unknown_ignored,zero} / pose_frame / position_vehicle_irrelevant / entity_history (updates and positions over whole histories) + differential play of generated position histories + recordings',
     text='C08 theorems state outright what Position and the three PlayerPosition cases do to the addressed entity and that no other entity changes; defaults before the first packet. Tied to the real players by generated interleavings (ids equal/unequal/zero/unknown, arbitrary float bit patterns) compared after each packet and against a dict id -> last pose.',
     note='floats are bit patterns (NaNs compared as a class); aliasing of Vector3 objects between entities cannot exist in the model and would surface as a disagreement.',
     design='§5 C08')
@@ -56,13 +56,13 @@ CHECKS['C07'] = dict(
     note='nested-change delivery (substring key match) is model code exercised by the correspondence; callbacks are opaque (recorded, optionally raising).',
     design='§5 C07')
 CHECKS['C12'] = dict(
-    technique='Lean 4 theorems modes_agree, lenient_no_raise/lenient_total, strict_prefix, lenient_eq_filtered / getInfo_lenient_returns / getInfo_strict_returns_lenient, put_stored, unknown_entity_clean, method_index_clean, method_undecodable_clean, property_failure_clean + fault injection into generated histories in both modes',
+    technique='Lean 4 theorems modes_agree, lenient_no_raise/lenient_total, strict_prefix, lenient_eq_filtered / getInfo_lenient_returns / getInfo_strict_returns_lenient / lenient_run_of_failures, put_stored, unknown_entity_clean, method_index_clean, method_undecodable_clean, property_failure_clean + fault injection into generated histories in both modes',
     text='C12 theorems over the play loop: strict stops at the first failing packet with exactly the state reached before it (plus that packet\'s partial effect) and its exception; lenient never raises out of the loop; when failing packets are clean the lenient world equals playing the stream without them, failure-free; fault-free streams give identical results; the named failure classes (unknown entity, index out of range, undecodable value of update/call) leave the world exactly as it was (real equality, using the table invariant). Tied to PlayerBase.play by injecting 0..5 faults into generated histories and checking the same three statements on the implementation alone, plus model/implementation agreement in both modes.',
     note='the top-level get_info catch-all is covered with the container (C01/C15); correspondence is sampled.',
     design='§5 C12')
 
 CHECKS['C01'] = dict(
-    technique='Lean 4 theorems chain_inverse / decrypt_inverse / blocks_roundtrip / read_write / bad_magic_rejected / bad_extension_rejected + kernel-checked facts (magic, keys, extensions) + independent container writer vs the real reader and the model',
+    technique='Lean 4 theorems chain_inverse / decrypt_inverse / blocks_roundtrip / read_write / bad_magic_rejected / bad_extension_rejected / rawDump_written + kernel-checked facts (magic, keys, extensions) + independent container writer vs the real reader and the model',
     text='C01.read_write: for every block permutation (E,D) with D(E b)=b, every inflate inverting the compressor, every block list (empty blocks as None), prefix and plaintext block list, reading the written file returns exactly game, first block, further blocks in order and the stream; the XOR chain is inverted for any number of blocks incl. all-zero ones; wrong magic / unknown extension give ValueError. Tied to ReplayReader by an independent writer (own keys, Blowfish encrypt, zlib levels/strategies, non-ASCII JSON, empty blocks), all stream lengths mod 8 per key, malformed files, raw dump, re-wrapped recordings; the model reads the same files with the ECB layer supplied per block.',
     note='Blowfish (Cryptodome), zlib and json are external parameters of the theorem (assumed inverse pairs); correspondence is sampled except for the length-mod-8 enumeration.',
     design='§5 C01')
@@ -95,7 +95,7 @@ CHECKS['C13'] = dict(
     note='the process-wide registry is the only shared state modelled; module-level caches of third-party libraries are outside the model; after a container-level failure no summary exists and the registry is not compared; sequences are sampled.',
     design='§5 C13')
 CHECKS['C14'] = dict(
-    technique='Lean 4 theorems encodable_of_keysOK / summary_encodable (every summary of the controller fold is serialisable) (+ tuple-key counterexample), step_stdout / playPackets_stdout / play_stdout_empty (no packet writes to standard output in the model), kernel-checked facts printSites_fact / onSetConsumable_unsubscribed_fact / parser_no_dump_fact regenerated from /repo + the CLI run as a subprocess on synthetic battles of every bundled version and recordings (stdout must be exactly one JSON document)',
+    technique='Lean 4 theorems encodable_of_keysOK / summary_encodable (every summary of the controller fold is serialisable) / dumps_is_one_document (the output is exactly one value of the JSON grammar) (+ tuple-key counterexample), step_stdout / playPackets_stdout / play_stdout_empty (no packet writes to standard output in the model), kernel-checked facts printSites_fact / onSetConsumable_unsubscribed_fact / parser_no_dump_fact regenerated from /repo + the CLI run as a subprocess on synthetic battles of every bundled version and recordings (stdout must be exactly one JSON document)',
     text='C14 theorems: every summary term whose dict keys are str/int/float/bool/None is encodable for every nesting; the model world\'s stdout is unchanged by every packet, hence empty after every stream in both modes; the regenerated list of print call sites contains only the CLI\'s final print and callbacks no controller subscribes. Tied to the code by running replay_parser.py on battles whose entity ids include every integer literal of the source and on recordings, and by passing every summary through the shipped encoder and the model\'s encodable.',
     note='partial: the encoder itself (json + DefaultEncoder) is external; what the summary contains per version is observed, not proved; print-site list is an ast scan (dynamic writes via sys.stdout would be seen only by the subprocess runs).',
     design='§5 C14')
